@@ -197,7 +197,7 @@ func (l *SimLiquidWallet) CreateAndBroadcastTransaction(p *swap.OpeningParams, a
 	if lay.Change && lay.SpendChange && idx != 0 {
 		w.Sim.After(ms(45000), "wallet", "spend-change", func() { w.LBTC.SpendPlain(n.ID, txid, 0) })
 	}
-	w.Observe(&Obs{Node: n.ID, Inc: n.inc, Kind: "wallet.opening", Str: txid, Num: int64(idx), Tx: &TxObs{Chain: "lbtc", TxID: txid, Hex: rawHex, Kind: "opening"}})
+	w.Observe(&Obs{Node: n.ID, Inc: n.inc, Kind: "wallet.opening", Str: txid, Num: int64(idx), Tx: &TxObs{Chain: "lbtc", TxID: txid, Hex: rawHex, Kind: "opening", Err: ackLost(f)}})
 	if f != nil && f.Kind == "errafter" {
 		// e.g. LWK: broadcast succeeded, fetching the raw transaction afterwards failed
 		return "", "", 0, errors.New("wallet rpc: failed to fetch transaction after broadcast")
